@@ -843,6 +843,9 @@ fn resolve_j<'tcx>(
                     "full".into(),
                     J::s(tcx.def_path_str_with_args(rid, inst.args)),
                 ),
+                // the generic arguments of the resolved item (impl parameters first, then the method's own):
+                // what the resolved body's type and const parameters stand for at this call site
+                ("targs".into(), generic_args_j(tcx, inst.args)),
             ])
         }
         _ => J::Null,
